@@ -70,4 +70,15 @@ CHECKS["C09"] = {
     "note": "Module bodies are not modelled (values are checked against generator closed forms); live bindings are checked on the implementation only; cyclic graphs are outside the property.",
     "design_ref": "DESIGN.md §4 C09",
 }
+CHECKS["C08"] = {
+    "technique": "Lean 4 proof over M-Orders (ledger invariants by induction over all event sequences) + trace validation of the real interpreter's Suspended lists against the model + protocol predicates on the trace",
+    "text": "order_once (no id is ever handed to the host twice), reported_increasing (ids fresh and strictly increasing), issue_then_report (an issued, un-cancelled order is handed over by the very next report together with everything waiting), "
+            "cancel_once (every cancellation event - explicit, rejected order promise, race loser - reaches the host exactly once, in order) and report_drains are Lean theorems over arbitrary interleavings of ledger events. "
+            "Generated scripts (orders, awaits, all/race/any, getId, cancels) run under host policies (value/error/object/promise/order-promise responses, early and late settlement, spurious steps, junk answers, forced GC); "
+            "the ledger events of each run are replayed through the model and its reports must equal the real Suspended lists; exactly-once, payload integrity, progress (no Suspended with nothing outstanding), completion, "
+            "catchable error responses and response values are evaluated on the implementation's trace.",
+    "note": "The script and the promise machinery are abstracted to ledger events (reconstructed from script markers and host actions); progress/quiescence/catchability are checked per run, not proved. Known findings: Promise.any never settles over pending promises; "
+            "__cancelOrder__ unchecked; loser-then-rejected reported twice; cancellations buffered at completion are dropped.",
+    "design_ref": "DESIGN.md §4 C08",
+}
 NOT_YET = {}
